@@ -48,6 +48,9 @@ pub struct Conn {
     /// runtime turns this client waits before it connects (staggered arrivals within a group)
     #[serde(default)]
     pub delay: u32,
+    /// runtime turns between connecting and sending the first byte (a pooled or slow client)
+    #[serde(default)]
+    pub idle: u32,
 }
 
 #[derive(Clone, Debug, Serialize, Deserialize)]
@@ -64,6 +67,11 @@ pub struct Plan {
     /// concurrent scrapes (rendered on the runtime's blocking pool, real threads) to overlap
     #[serde(default)]
     pub heavy: u32,
+    /// > 0: after the groups, one scrape is made while the runtime's only blocking thread is held
+    /// by other work and the runtime's clock jumps ahead by this many seconds before it is released
+    /// (a stalled renderer: the answer is late, it is still the rendering)
+    #[serde(default)]
+    pub stall_render_s: u32,
 }
 
 // ---- independent CIDR model ------------------------------------------------------------------
@@ -106,6 +114,8 @@ pub struct Outcome {
     pub responses: Vec<(u16, Vec<u8>)>,
     pub raw: Vec<u8>,
     pub hits_before: u64,
+    /// per request: the counter's value just before the client wrote the request's last bytes
+    pub hits_req: Vec<u64>,
     pub hits_after: u64,
     pub closed_by_server: bool,
 }
@@ -177,7 +187,23 @@ async fn peer_task(net: Arc<Net>, addr: SocketAddr, c: Conn, hits: Arc<AtomicU64
         Some(n) => bytes[..n.min(bytes.len())].to_vec(),
         None => bytes,
     };
+    for _ in 0..c.idle {
+        turn().await;
+    }
+    // ends of the well-formed requests within `bytes` (nothing to record for the other kinds)
+    let ends: Vec<usize> = match &c.kind {
+        Kind::Get(_) => vec![bytes.len()],
+        Kind::Pipelined(a, _) => vec![request(PATHS[*a]).len(), bytes.len()],
+        _ => vec![],
+    };
+    let mut written = 0usize;
     for ch in bytes.chunks(c.chunk.max(1)) {
+        for e in &ends {
+            if written < *e && written + ch.len() >= *e {
+                o.hits_req.push(hits.load(Ordering::SeqCst));
+            }
+        }
+        written += ch.len();
         net.peer_write(id, ch);
         turn().await;
     }
@@ -265,11 +291,12 @@ impl Scenario for C18Http {
                         },
                         chunk: *r.pick(&[1usize, 3, 7, 64, 100_000]),
                         delay: *r.pick(&[0u32, 0, 0, 5, 40, 300]),
+                        idle: *r.pick(&[0u32, 0, 0, 0, 30, 400]),
                     })
                     .collect()
             })
             .collect();
-        Plan { allow, groups, allow_first: r.chance(400), bad_storm: if r.chance(15) { 70 } else { 0 }, heavy: if r.chance(60) { 3000 } else { 0 } }
+        Plan { allow, groups, allow_first: r.chance(400), bad_storm: if r.chance(15) { 70 } else { 0 }, heavy: if r.chance(60) { 3000 } else { 0 }, stall_render_s: if r.chance(40) { *r.pick(&[1u32, 6, 30, 600]) } else { 0 } }
     }
     fn execute(&self, plan: &Plan, sched: &SchedSpec) -> RunReport {
         let net = simnet::install(sched.faults.clone());
@@ -277,9 +304,16 @@ impl Scenario for C18Http {
         let addr: SocketAddr = "127.0.0.1:9000".parse().unwrap();
         let p = plan.clone();
         let net2 = net.clone();
+        let stalled: Arc<std::sync::Mutex<Option<Outcome>>> = Arc::new(std::sync::Mutex::new(None));
+        let stalled2 = stalled.clone();
         // run on a thread of its own so that a wedged runtime cannot wedge the worker's bookkeeping
         let handle = std::thread::spawn(move || -> Result<(Vec<Vec<Outcome>>, Outcome, Vec<(usize, String)>), String> {
-            let rt = tokio::runtime::Builder::new_current_thread().enable_time().build().map_err(|e| e.to_string())?;
+            let mut rtb = tokio::runtime::Builder::new_current_thread();
+            rtb.enable_time();
+            if p.stall_render_s > 0 {
+                rtb.max_blocking_threads(1);
+            }
+            let rt = rtb.build().map_err(|e| e.to_string())?;
             rt.block_on(async move {
                 let mut b = PrometheusBuilder::new();
                 if !p.allow_first {
@@ -314,7 +348,7 @@ impl Scenario for C18Http {
                 // many connections that end badly, one after the other: none of them may cost the
                 // endpoint anything that later clients need
                 for i in 0..p.bad_storm {
-                    let c = Conn { peer: (0..PEER_POOL.len()).find(|x| model_allowed(&p.allow, *x)).unwrap_or(0), kind: if i % 2 == 0 { Kind::Garbage(1) } else { Kind::TruncatedHead }, chunk: 100_000, delay: 0 };
+                    let c = Conn { peer: (0..PEER_POOL.len()).find(|x| model_allowed(&p.allow, *x)).unwrap_or(0), kind: if i % 2 == 0 { Kind::Garbage(1) } else { Kind::TruncatedHead }, chunk: 100_000, delay: 0, idle: 0 };
                     let _ = peer_task(net2.clone(), addr, c, hits.clone(), 20_000 + i as u16, Arc::new(std::sync::atomic::AtomicBool::new(true))).await;
                 }
                 for g in &p.groups {
@@ -363,8 +397,28 @@ impl Scenario for C18Http {
                 // after any prefix of bad connections a well-formed request from an allowed peer is answered
                 net2.faults.lock().unwrap().disable();
                 let probe_peer = (0..PEER_POOL.len()).find(|i| model_allowed(&p.allow, *i));
+                if let (true, Some(pp)) = (p.stall_render_s > 0, probe_peer) {
+                    tokio::time::pause();
+                    let (tx, rx) = std::sync::mpsc::channel::<()>();
+                    let blocker = tokio::task::spawn_blocking(move || {
+                        let _ = rx.recv_timeout(Duration::from_secs(10));
+                    });
+                    let t = tokio::spawn(peer_task(net2.clone(), addr, Conn { peer: pp, kind: Kind::Get(0), chunk: 100_000, delay: 0, idle: 0 }, hits.clone(), 49_000, Arc::new(std::sync::atomic::AtomicBool::new(true))));
+                    for _ in 0..300 {
+                        turn().await;
+                    }
+                    tokio::time::advance(Duration::from_secs(p.stall_render_s as u64)).await;
+                    for _ in 0..100 {
+                        turn().await;
+                    }
+                    let _ = tx.send(());
+                    let _ = blocker.await;
+                    let o = t.await.map_err(|e| format!("peer task: {}", e))?;
+                    tokio::time::resume();
+                    *stalled2.lock().unwrap() = Some(o);
+                }
                 let probe = match probe_peer {
-                    Some(pp) => peer_task(net2.clone(), addr, Conn { peer: pp, kind: Kind::Get(0), chunk: 100_000, delay: 0 }, hits.clone(), 50_000, Arc::new(std::sync::atomic::AtomicBool::new(true))).await,
+                    Some(pp) => peer_task(net2.clone(), addr, Conn { peer: pp, kind: Kind::Get(0), chunk: 100_000, delay: 0, idle: 0 }, hits.clone(), 50_000, Arc::new(std::sync::atomic::AtomicBool::new(true))).await,
                     None => Outcome { responses: vec![(200, b"# no allowed peer in the pool\n".to_vec())], ..Default::default() },
                 };
                 server.abort();
@@ -437,13 +491,23 @@ impl Scenario for C18Http {
                                 Err(e) => v = violation("scrape-body-malformed", format!("GET {} body does not parse: {}", PATHS[*pi], e)),
                                 Ok(fams) => {
                                     let val = fams.iter().find(|f| f.name == "c18_hits").and_then(|f| f.samples.first()).and_then(|s| s.value.parse::<u64>().ok());
+                                    // not older than the moment the client completed this request
+                                    let lower = o.hits_req.get(ri).copied().unwrap_or(o.hits_before);
                                     match val {
-                                        Some(x) if x >= o.hits_before && x <= o.hits_after => {}
-                                        other => v = violation("scrape-body-stale", format!("GET {} shows c18_hits = {:?}; the counter was {} when the client connected and {} when it had its answer", PATHS[*pi], other, o.hits_before, o.hits_after)),
+                                        Some(x) if x >= lower && x <= o.hits_after => {}
+                                        other => v = violation("scrape-body-stale", format!("GET {} shows c18_hits = {:?}; the counter was {} when the client connected, {} when it sent the last bytes of this request and {} when it had its answer", PATHS[*pi], other, o.hits_before, lower, o.hits_after)),
                                     }
                                 }
                             }
                         }
+                    }
+                }
+                if let (true, Some(o)) = (v.is_none(), stalled.lock().unwrap().clone()) {
+                    rep.faults.push(FaultDecision { stream: "blocking-pool".into(), idx: 0, kind: "render_stall".into(), arg: plan.stall_render_s as u64 });
+                    let shown = o.responses.first().and_then(|(st, body)| if *st == 200 { promtext::parse(&String::from_utf8_lossy(body)).ok() } else { None }).and_then(|fams| fams.iter().find(|f| f.name == "c18_hits").and_then(|f| f.samples.first()).and_then(|s| s.value.parse::<u64>().ok()));
+                    match shown {
+                        Some(x) if x >= o.hits_req.first().copied().unwrap_or(0) && x <= o.hits_after => {}
+                        _ => v = violation("slow-scrape-not-served", format!("a GET /metrics from an allowed peer whose rendering was held up for {} s (blocking pool busy, clock advanced) got {:?} instead of 200 with the current rendering", plan.stall_render_s, o.responses.first().map(|r| (r.0, r.1.len())))),
                     }
                 }
                 if v.is_none() && rejected.is_empty() {
@@ -473,6 +537,9 @@ impl Scenario for C18Http {
         }
         if p.heavy > 0 {
             out.push(Plan { heavy: 0, ..p.clone() });
+        }
+        if p.stall_render_s > 1 {
+            out.push(Plan { stall_render_s: p.stall_render_s / 2, ..p.clone() });
         }
         for i in 0..p.groups.len() {
             if p.groups.len() > 1 {
